@@ -612,8 +612,11 @@ def requests_for(rng, sc, lay, budget):
     return [(g, c) for (g, c) in reqs if two_ok(c["targets"])]
 
 
-BUDGET_QUICK = {"sweep": 70, "rechunked": 16, "mailbox": 6, "two": 24, "extras": 24, "odd": 5, "norange": 4,
-                "within": 5, "seconds": 16}
+BUDGET_QUICK = {"sweep": 50, "rechunked": 12, "mailbox": 4, "two": 18, "extras": 18, "odd": 4, "norange": 3,
+                "within": 4, "seconds": 10}
+# anchors / constants drifted: a wider generator even in the quick tier
+BUDGET_ESCALATED = {"sweep": 200, "rechunked": 40, "mailbox": 12, "two": 60, "extras": 60, "odd": 10, "norange": 8,
+                    "within": 10, "seconds": 40}
 BUDGET_THOROUGH = {"sweep": 2000, "rechunked": 250, "mailbox": 80, "two": 300, "extras": 300, "odd": 40,
                    "norange": 30, "within": 40, "seconds": 150}
 
@@ -677,42 +680,50 @@ def straddled_right(case, tr):
     return tr is not None and any(r[0] < tr[1] < r[1] for r in case["rows"])
 
 
+def verdict(case, got):
+    """The property's own predicate on one real request: None if it holds, else (what was expected, tr).
+    Independent of strax and of the model: pure-python selection of the prescribed rows; an explicit error
+    iff the range overlaps no stored chunk of some requested target."""
+    many = sum(case.get(k) is not None for k in ("time_range", "seconds_range", "time_within"))
+    if many >= 3:
+        return None if got.startswith("err") else "err 45"
+    tr = abs_range(case, first_start(case))
+    want = oracle(case, tr)
+    if want.startswith("err"):
+        # an invalid request (both keep and drop, unknown column / mode): any explicit error satisfies the
+        # property; which of several errors comes first is not compared
+        return None if got.startswith("err") else want
+    skip = tr is not None and case["mode"] == "skip"   # returns what the loaded chunks hold: layout dependent
+    lays = [case["A"]] + ([case["B"]] if "B" in case else [])
+    nochunk = tr is not None and any(all(e <= tr[0] or tr[1] <= s for s, e, _ in lay) for lay in lays)
+    if nochunk:
+        if got in ("err 40", "err 50") and (skip or want.endswith("|")):
+            return None
+        if not got.startswith("err"):
+            return "an explicit error: the range %s overlaps no stored chunk" % (list(tr),)
+        return want    # rows of the full selection replaced by an error
+    if skip:
+        return None if not got.startswith("err") else "a result: time_selection='skip' on a range overlapping a chunk"
+    return None if got == want else want
+
+
 def judge(ctx, group, case, got, model_out):
     """compare implementation / model / oracle for one request; returns a tag for the distribution"""
     parts = [x.strip() for x in model_out.split("#")]
     mget, mfull = parts[0], parts[1]
     lost = parts[2] if len(parts) > 2 else ""
-    tr = None
     many = sum(case.get(k) is not None for k in ("time_range", "seconds_range", "time_within"))
-    if many >= 3:
-        want = "err 45"
-    else:
-        tr = abs_range(case, first_start(case))
-        want = oracle(case, tr)
-        if tr is not None and case["mode"] == "skip" and not want.startswith("err"):
-            want = None   # 'skip' returns whatever the loaded chunks hold: outside the property
+    tr = abs_range(case, first_start(case)) if many < 3 else None
     # the model's own oracle must be the python oracle (keeps the two specifications tied)
-    if want is not None and not want.startswith("err") and mfull != want and many < 3:
+    pyfull = oracle(case, tr) if many < 3 else "err 45"
+    if not pyfull.startswith("err") and not (tr is not None and case["mode"] == "skip") and mfull != pyfull:
         ctx.violation("oracle", "python oracle and the model's selection of the full result differ: %s vs %s"
-                      % (want, mfull), {"input": "corr:C10/oracle", "case": case, "python": want, "model": mfull},
+                      % (pyfull, mfull), {"input": "corr:C10/oracle", "case": case, "python": pyfull, "model": mfull},
                       no_failing_input=True)
         return "oracle-mismatch"
-    ok_prop = want is None or got == want
-    if want is not None and want.startswith("err"):
-        # an invalid request (both keep and drop, unknown column / mode, three range arguments): any explicit
-        # error satisfies the property; which of several errors comes first is not compared with the model
-        return "agree" if got.startswith("err") else _violate(ctx, group, case, got, want, mget)
-    if want is not None and got in ("err 40", "err 50"):
-        # a range overlapping no stored chunk: the explicit error is the specified behaviour ...
-        lays = [case["A"]] + ([case["B"]] if "B" in case else [])
-        nochunk = all(all(e <= tr[0] or tr[1] <= s for s, e, _ in lay) for lay in lays) if tr else False
-        # ... provided the full selection is empty (otherwise rows are silently replaced by an error)
-        ok_prop = nochunk and want.endswith("|")
-        if len(lays) == 2 and not ok_prop:
-            nochunk_any = any(all(e <= tr[0] or tr[1] <= s for s, e, _ in lay) for lay in lays)
-            ok_prop = nochunk_any and want.endswith("|")
-    if ok_prop:
-        if got != mget:
+    want = verdict(case, got)
+    if want is None:
+        if got != mget and not pyfull.startswith("err"):
             ctx.violation(group, "model/implementation disagree (impl %s, model %s); the property itself holds on "
                           "this request" % (got[:120], mget[:120]),
                           {"input": "corr:C10/%s" % group, "case": case, "impl": got, "model": mget, "unit": group},
@@ -723,8 +734,8 @@ def judge(ctx, group, case, got, model_out):
     what = "get_array returned %s but the selection of the full result is %s" % (got[:160], want[:160])
     if got == mget:
         lost_sets = [s.split("=")[1] for s in lost.split() if "=" in s]
-        if case["mode"] == "fully_contained" and any(lost_sets) and got in ("err 40", "err 50", "err 54", "err 55") + \
-                (() if got.startswith("err") else (got,)):
+        if case["mode"] == "fully_contained" and any(lost_sets) and \
+                (not got.startswith("err") or got in ("err 40", "err 50", "err 54", "err 55")):
             ctx.violation(UNIT_ZERO, what, {"input": W_ZERO, "case": case, "impl": got, "oracle": want, "unit": group})
             return "known:zero-length-edge"
         if got == "err 51" and len(case["targets"]) == 2 and straddled_right(case, tr) and case["A"] != case.get("B"):
@@ -750,9 +761,12 @@ def nontrivial(case, got):
 
 
 def unit_get_array(ctx):
-    thorough = ctx.thorough or ctx.escalated()
-    nscen = 160 if thorough else 26
-    budget = BUDGET_THOROUGH if thorough else BUDGET_QUICK
+    if ctx.thorough:
+        nscen, budget = 160, BUDGET_THOROUGH
+    elif ctx.escalated():
+        nscen, budget = 56, BUDGET_ESCALATED
+    else:
+        nscen, budget = 22, BUDGET_QUICK
     scen = make_scenarios(ctx.rng, nscen)
     # canonical witnesses are always part of the scope
     scen.append({"rows": [tuple(r) for r in W_ZERO["rows"]], "A": [tuple(x) for x in W_ZERO["A"]],
@@ -1182,10 +1196,19 @@ def replay(ctx, obj):
     try:
         stdout = sys.stdout
         with contextlib.redirect_stdout(io.StringIO()):
+            import logging
+            logging.disable(logging.CRITICAL)
+            threading.excepthook = lambda a: None
             st = make_context(root)
             rows = [tuple(x) for x in case["rows"]]
             SCEN["1"] = {}
-            lay_ok = True
+            if case.get("md_start") is not None:
+                import datetime
+                utc = datetime.timezone.utc
+                st.storage[0].write_run_metadata("1", {
+                    "name": "1",
+                    "start": datetime.datetime.fromtimestamp(case["md_start"], utc).replace(tzinfo=None),
+                    "end": datetime.datetime.fromtimestamp(case["md_start"] + 100, utc).replace(tzinfo=None)})
             for tg, key in zip(case["targets"], ("A", "B")):
                 src = rows_b(rows) if tg.startswith("b") else rows
                 base = tg[0] + tg[0]       # aa / bb: write the recorded layout with the non-rechunking source
@@ -1194,14 +1217,8 @@ def replay(ctx, obj):
             c = dict(case, targets=[t[0] + t[0] for t in case["targets"]])
             got = run_request(st, "1", c)
         sys.stdout = stdout
-        many = sum(case.get(k) is not None for k in ("time_range", "seconds_range", "time_within"))
-        tr = abs_range(case, first_start(case)) if many < 3 else None
-        want = "err 45" if many >= 3 else oracle(case, tr)
-        print("impl:", got, "| selection of the full result:", want)
-        if got == want:
-            return 0
-        if got == "err 40" and want.endswith("|"):
-            return 0
-        return 1
+        want = verdict(case, got)
+        print("impl:", got, "| property:", "holds" if want is None else "FAILS, expected " + want)
+        return 0 if want is None else 1
     finally:
         shutil.rmtree(root, ignore_errors=True)
